@@ -193,40 +193,27 @@ theorem call_noninterference_marks (args : List Value) (r : Value) (m : String) 
     m ∈ (Fn.withMarkSets r (Fn.argMarkSets args)).marks ↔ m ∈ r.marks ∨ ∃ v ∈ args, m ∈ v.marksDeep := by
   rw [Fn.mem_marks_withMarkSets, Fn.mem_argMarkSets]
 
-/-- The full statement one would like of the call protocol — "when `Call` answers
+/-- What the protocol does with the marks of `AllowMarked` arguments when it answers
 WITHOUT invoking `Impl` (an unknown or dynamically typed argument short-circuits
-it), every mark of every argument is on the result", since the function that
-promised to handle the marks of its `AllowMarked` arguments is never run — is
-FALSE of the code: `resultMarks` collects only the marks of arguments whose
-parameter lacks `AllowMarked`. -/
-def ShortCircuitKeepsAllMarks : Prop :=
-  ∀ (spec : Fn.Spec) (tf : Fn.TypeFn) (impl : Fn.ImplFn) (args : List Value) (r : Value),
-    (Fn.call spec tf impl args).1 = .ok r →
-    (∀ e ∈ (Fn.call spec tf impl args).2, ∀ as t, e ≠ Fn.Event.impl as t) →
-    ∀ v ∈ args, ∀ m ∈ v.marksDeep, m ∈ r.marks
-
-/-- what does hold on that path: the marks the protocol itself is responsible for (`call_marks`) -/
-theorem shortCircuit_keeps_marks_partial (spec : Fn.Spec) (tf : Fn.TypeFn) (impl : Fn.ImplFn) (args : List Value)
-    (r : Value) (h : (Fn.call spec tf impl args).1 = .ok r) (m : String) (hm : Fn.Unhandled spec args m) :
-    m ∈ r.marks := call_marks spec tf impl args r h m hm
-
-/-- `not(unknown bool marked "m")` with the parameter of `stdlib.NotFunc`
-(`AllowMarked` without `AllowUnknown`): the result is an unmarked unknown. -/
-theorem shortCircuit_keeps_all_marks_counterexample :
+the call): they are NOT put on the result — `resultMarks` collects only the marks
+of arguments whose parameter lacks `AllowMarked`.  This is intended behaviour,
+pinned by cty/function/function_test.go `TestFunctionCallWithUnknownVals`
+(`params-partial-marks`: only the mark of the non-`AllowMarked` argument is
+expected; also `refined-marked`, `marked-dynamic-not-refined`), and outside the
+property, which exempts arguments a function declares it handles itself.
+Here: `not(unknown bool marked "m")` with the parameter of `stdlib.NotFunc`
+(`AllowMarked` without `AllowUnknown`) is an unmarked unknown. -/
+theorem shortCircuit_drops_allowMarked_marks :
     let spec : Fn.Spec := { params := [{ ty := .bool, allowMarked := true }] }
     let arg : Value := ⟨.bool, .marked ["m"] (.unk .unref)⟩
     Fn.call spec (fun _ => .ok .bool) (fun _ _ => .panic "not reached") [arg] =
       (.ok ⟨.bool, .unk .unref⟩, [.type [arg]]) := by
   rfl
 
-theorem shortCircuitKeepsAllMarks_false : ¬ ShortCircuitKeepsAllMarks := by
-  intro h
-  have hc := shortCircuit_keeps_all_marks_counterexample
-  simp only at hc
-  have := h { params := [{ ty := .bool, allowMarked := true }] } (fun _ => .ok .bool) (fun _ _ => .panic "not reached")
-    [⟨.bool, .marked ["m"] (.unk .unref)⟩] ⟨.bool, .unk .unref⟩ (by rw [hc]) (by rw [hc]; simp)
-    ⟨.bool, .marked ["m"] (.unk .unref)⟩ (by simp) "m" (by decide)
-  simp [Value.marks, Payload.marks1] at this
+/-- … while the marks the protocol is responsible for are on that answer too (`call_marks`). -/
+theorem shortCircuit_keeps_unhandled_marks (spec : Fn.Spec) (tf : Fn.TypeFn) (impl : Fn.ImplFn) (args : List Value)
+    (r : Value) (h : (Fn.call spec tf impl args).1 = .ok r) (m : String) (hm : Fn.Unhandled spec args m) :
+    m ∈ r.marks := call_marks spec tf impl args r h m hm
 
 /-! ## Non-vacuity: the hypotheses are satisfiable by values that do carry marks,
 nested ones included, and the conclusions are about real results. -/
